@@ -79,7 +79,7 @@ def validate(recorded, env=True, fuel=60000, workers=12, timeout=900, tag="trace
         cases.append({"body": rec["body"], "events": evs, "env": 1 if env else 0})
         index.append(rec)
     if not cases:
-        return [], skipped
+        return [], skipped, None
     path = os.path.join(common.VERIF, "work", "%s_%d.ndjson" % (tag, os.getpid()))
     tlc.write_ndjson(path, cases)
     r = tlc.run("lang/LangTrace.tla", "lang/LangTrace.cfg", workers=workers, env={"CASES": path, "FUEL": fuel}, timeout=timeout, coverage=False)
